@@ -156,3 +156,83 @@ func TestSkipsNonPodKeys(t *testing.T) {
 		t.Fatalf("missing skip accepted")
 	}
 }
+
+func TestEnqueuesOnlyOnNotFound(t *testing.T) {
+	tmpl := func(cond string, extra string) string {
+		return `func f() error {
+	var err1 error
+	if err := wait.PollImmediate(a, b, func() (bool, error) {
+		if err := p.Client.CoreV1().Pods(args.PodNamespace).Bind(context.TODO(), &corev1.Binding{
+			Target: corev1.ObjectReference{Kind: "Node", Name: args.Node},
+		}, v1.CreateOptions{}); err != nil {
+			err1 = err
+			if apierrors.IsNotFound(err) {
+				return false, err
+			}
+			return false, nil
+		}
+		return true, nil
+	}); err != nil {
+		if ` + cond + ` {
+			p.unreleased <- &releaseEvent{pod: pod}
+		}
+		` + extra + `
+		return fmt.Errorf("update pod: %w", err1)
+	}
+	return nil
+}`
+	}
+	p, b := parseBody(t, tmpl("apierrors.IsNotFound(err1)", ""))
+	if !enqueuesOnlyOnNotFound(p, b) {
+		t.Fatalf("original shape not recognised")
+	}
+	// a helper that also accepts Conflict
+	p, b = parseBody(t, tmpl("podGone(err1)", ""))
+	if enqueuesOnlyOnNotFound(p, b) {
+		t.Fatalf("helper condition accepted")
+	}
+	p, b = parseBody(t, tmpl("apierrors.IsNotFound(err1) || apierrors.IsConflict(err1)", ""))
+	if enqueuesOnlyOnNotFound(p, b) {
+		t.Fatalf("wider condition accepted")
+	}
+	// a second, unguarded send
+	p, b = parseBody(t, tmpl("apierrors.IsNotFound(err1)", "p.unreleased <- &releaseEvent{pod: pod}"))
+	if enqueuesOnlyOnNotFound(p, b) {
+		t.Fatalf("unguarded send accepted")
+	}
+	// err1 assigned from somewhere else as well
+	p, b = parseBody(t, tmpl("apierrors.IsNotFound(err1)", "err1 = other"))
+	if enqueuesOnlyOnNotFound(p, b) {
+		t.Fatalf("second assignment of err1 accepted")
+	}
+}
+
+func TestFinishedIsPhaseOnly(t *testing.T) {
+	p, b := parseBody(t, `func f(pod *corev1.Pod) bool {
+	return pod.Status.Phase == corev1.PodFailed || pod.Status.Phase == corev1.PodSucceeded
+}`)
+	if !finishedIsPhaseOnly(p, b) {
+		t.Fatalf("original shape not recognised")
+	}
+	p, b = parseBody(t, `func f(pod *corev1.Pod) bool {
+	if pod.DeletionTimestamp != nil {
+		return true
+	}
+	return pod.Status.Phase == corev1.PodFailed || pod.Status.Phase == corev1.PodSucceeded
+}`)
+	if finishedIsPhaseOnly(p, b) {
+		t.Fatalf("deletionTimestamp variant accepted")
+	}
+	p, b = parseBody(t, `func f(pod *corev1.Pod) bool {
+	return pod.Status.Phase == corev1.PodFailed || pod.Status.Phase == corev1.PodSucceeded || pod.DeletionTimestamp != nil
+}`)
+	if finishedIsPhaseOnly(p, b) {
+		t.Fatalf("three-way disjunction accepted")
+	}
+	p, b = parseBody(t, `func f(pod *corev1.Pod) bool {
+	return pod.Status.Phase == corev1.PodFailed
+}`)
+	if finishedIsPhaseOnly(p, b) {
+		t.Fatalf("single comparison accepted")
+	}
+}
